@@ -58,6 +58,11 @@ def check(ctx):
         "file-level equality on every GFA (tags round-trip through a dict: a repeated tag name on one S line keeps the last value)",
         "uniqueness of component names in name_comps (two components with the same majority SN overwrite each other)",
     ]
+    # mechanisms this property rests on (see shared.py): a change there is reported here as well
+    from . import shared as _sh
+
+    _sh.graph_loader(ctx)
+    _sh.cli_layer(ctx, "gaftools.cli.order_gfa")
 
 
 def r07_1(ctx, g):
